@@ -59,8 +59,12 @@ func spec(dir string, entry []string, all bool) pipe.Spec {
 		}
 	}
 	sp.RealFirst = genOrder == 2
+	sp.Base = outBase
 	return sp
 }
+
+// outBase: OutputFileBaseName of the current execution ("" = the default, zz_generated)
+var outBase string
 
 func specInOrder(dir string, entry []string, all bool) pipe.Spec {
 	return pipe.Spec{
@@ -93,6 +97,8 @@ type Case struct {
 	GenOrder int            `json:"generator_order_1_scripted_reversed_2_repository_generators_first,omitempty"`
 	// history variant: the first run fails with a generator error at this type
 	FailFirstRunAt string `json:"first_run_fails_at_type,omitempty"`
+	// OutputFileBaseName other than the default
+	Base string `json:"output_file_base_name,omitempty"`
 }
 
 type result struct {
@@ -102,8 +108,12 @@ type result struct {
 
 func outputs(t pipe.Tree) map[string]string {
 	out := map[string]string{}
+	base := outBase
+	if base == "" {
+		base = "zz_generated"
+	}
 	for k, v := range t {
-		if strings.Contains(k, "zz_generated.") || k == "gengo.sum" {
+		if strings.Contains(k, "/"+base+".") || strings.HasPrefix(k, base+".") || k == "gengo.sum" {
 			out[k] = v
 		}
 	}
@@ -243,6 +253,8 @@ func checkRuns(c *core.Ctx, cs Case) {
 	}
 	seamctl.Set(cs.Def, cs.Policy)
 	defer seamctl.Set(0, nil)
+	outBase = cs.Base
+	defer func() { outBase = "" }()
 	var prev map[string]string
 	for i := 1; i <= cs.Runs; i++ {
 		var o pipe.Outcome
@@ -466,6 +478,8 @@ func run(c *core.Ctx) {
 				}
 				checkRuns(c, Case{Entry: entryAll, All: all, Runs: 3, Child: child, Def: d})
 				if d == 0 {
+					// output files under another base name (a generator cannot see the name the caller chose)
+					checkRuns(c, Case{Entry: entryAll, All: all, Runs: 4, Child: child, Base: "gen"})
 					checkRuns(c, Case{Entry: []string{".", "./a", "./b", "./c"}, All: all, Runs: 4, Child: child})
 				}
 			}
